@@ -181,13 +181,22 @@ fn canon_cfg(ts: &[ATarget]) -> Value {
     json!({"targets": ts.iter().map(|t| json!({"path": t.path, "uses": t.uses, "ignores": t.ignores})).collect::<Vec<_>>()})
 }
 
-fn concrete_cfg(ts: &[&ATarget], s: &Scheme, rev_lists: bool, omit_empty: bool) -> String {
+fn concrete_cfg(ts: &[&ATarget], s: &Scheme, rev_lists: bool, omit_empty: bool, slash_dirs: bool, fixture: &Path) -> String {
     let mut out = vec![];
+    // an entry that names a directory may be written with a trailing separator: same path, other spelling
+    let spell = |p: &APath| -> String {
+        let c = s.conc(p);
+        if slash_dirs && fixture.join(&c).is_dir() {
+            format!("{}/", c)
+        } else {
+            c
+        }
+    };
     for t in ts {
         let mut o = serde_json::Map::new();
         o.insert("path".into(), json!(s.conc(&t.path)));
-        let mut uses: Vec<String> = t.uses.iter().map(|p| s.conc(p)).collect();
-        let mut ign: Vec<String> = t.ignores.iter().map(|p| s.conc(p)).collect();
+        let mut uses: Vec<String> = t.uses.iter().map(&spell).collect();
+        let mut ign: Vec<String> = t.ignores.iter().map(&spell).collect();
         if rev_lists {
             uses.reverse();
             ign.reverse();
@@ -300,7 +309,9 @@ fn drive_variant(
     rng: &mut StdRng,
     variant: &str,
 ) {
-    let cfg_json = concrete_cfg(order, s, rev_lists, omit_empty);
+    // the spelling of directory entries varies with the variant (third flag folded into omit_empty / rev_lists parity)
+    let slash_dirs = rev_lists != omit_empty;
+    let cfg_json = concrete_cfg(order, s, rev_lists, omit_empty, slash_dirs, fixture);
     let canon = canon_cfg(ts);
     let conc_files: Vec<String> = files.iter().map(|p| s.conc(p)).collect();
 
